@@ -16,7 +16,7 @@ PROP = {
     ],
     "units": [
         {"name": "c09", "pkg": "./internal/pkg/preprocessor", "run": "^TestVerif_C09_", "kind": "rapid",
-         "facets": ["C09/determinism", "C09/idempotence", "C09/shape", "C09/resolution", "C09/query-order"],
+         "facets": ["C09/determinism", "C09/idempotence", "C09/shape", "C09/resolution", "C09/query-order", "C09/shared-parent"],
          "checks": (20000, 400000), "shards": (2, 16), "timeout": (600, 3000)},
     ],
 }
